@@ -59,8 +59,13 @@ func tsPool() []tsItem {
 			x.Elem().FieldByName("Published").Set(reflect.ValueOf(p))
 			x.Elem().FieldByName("Updated").Set(reflect.ValueOf(u))
 			// decoys: instants that must not influence the order
-			x.Elem().FieldByName("StartTime").Set(reflect.ValueOf(time.Date(2090, 1, 1, 0, 0, 0, 0, time.UTC)))
-			x.Elem().FieldByName("EndTime").Set(reflect.ValueOf(time.Date(1990, 1, 1, 0, 0, 0, 0, time.UTC)))
+			// every other instant the kind declares (startTime, endTime, a Tombstone's deleted, ...) is a far-future decoy
+			for fi := 0; fi < x.Elem().NumField(); fi++ {
+				f := x.Elem().Type().Field(fi)
+				if f.Type == reflect.TypeOf(time.Time{}) && f.Name != "Published" && f.Name != "Updated" {
+					x.Elem().Field(fi).Set(reflect.ValueOf(time.Date(2090+fi%5, 1, 1, 0, 0, 0, 0, time.UTC)))
+				}
+			}
 			if i%2 == 1 {
 				return x.Elem().Interface().(vocab.Item) // value form
 			}
